@@ -19,6 +19,8 @@ theorem getFailed_emit (r : Run) (nm : String) (p pos : Nat) : getFailed (r.emit
 def failedAt (pos : Nat) (r : Run) : Nat := getFailed r pos
 
 @[simp] theorem failedAt_emit (pos : Nat) (r : Run) (nm : String) (p : Nat) : failedAt pos (r.emit nm p) = failedAt pos r := rfl
+@[simp] theorem failedAt_emitSeen (pos : Nat) (r : Run) (nm : String) (p : Nat) (o : Outcome) : failedAt pos (r.emitSeen nm p o) = failedAt pos r := rfl
+@[simp] theorem failedAt_emitLast (pos : Nat) (r : Run) (nm : String) (p : Nat) : failedAt pos (r.emitLast nm p) = failedAt pos r := rfl
 @[simp] theorem failedAt_exceeded (pos : Nat) (r : Run) (l : List Nat) : failedAt pos { r with exceeded := l } = failedAt pos r := rfl
 @[simp] theorem failedAt_setFailed (pos : Nat) (r : Run) (n : Nat) : failedAt pos (setFailed r pos n) = n :=
   getFailed_setFailed r pos n
@@ -33,7 +35,7 @@ theorem retryOnFailure_failed (pos : Nat) (m : Int) (rl : Bool) (a : List Cond) 
   unfold retryOnFailure
   simp only
   split <;>
-    simp only [apply_ite (failedAt pos), failedAt_emit, failedAt_exceeded, failedAt_setFailed, ite_self] <;> rfl
+    simp only [apply_ite (failedAt pos), failedAt_emit, failedAt_emitSeen, failedAt_exceeded, failedAt_setFailed, ite_self] <;> rfl
 
 /-- a retry is only decided while the budget is not exhausted -/
 theorem retryOnFailure_not_done (pos : Nat) (m : Int) (rl : Bool) (a : List Cond) (res : PR) (r : Run)
@@ -52,6 +54,8 @@ theorem retryOnFailure_not_done (pos : Nat) (m : Int) (rl : Bool) (a : List Cond
 def excAt (pos : Nat) (r : Run) : Bool := r.exceeded.contains pos
 
 @[simp] theorem excAt_emit (pos : Nat) (r : Run) (nm : String) (p : Nat) : excAt pos (r.emit nm p) = excAt pos r := rfl
+@[simp] theorem excAt_emitSeen (pos : Nat) (r : Run) (nm : String) (p : Nat) (o : Outcome) : excAt pos (r.emitSeen nm p o) = excAt pos r := rfl
+@[simp] theorem excAt_emitLast (pos : Nat) (r : Run) (nm : String) (p : Nat) : excAt pos (r.emitLast nm p) = excAt pos r := rfl
 @[simp] theorem excAt_setFailed (pos : Nat) (r : Run) (p n : Nat) : excAt pos (setFailed r p n) = excAt pos r := rfl
 @[simp] theorem excAt_cons (pos : Nat) (r : Run) : excAt pos { r with exceeded := pos :: r.exceeded } = true := by
   simp [excAt]
@@ -66,7 +70,7 @@ theorem retryOnFailure_exceeded (pos : Nat) (m : Int) (rl : Bool) (a : List Cond
       (decide (m ≠ -1 ∧ ((failedAt pos r + 1 : Nat) : Int) > m) || durExceeded pos r || excAt pos r) := by
   unfold retryOnFailure
   simp only
-  have hg : getFailed (r.emit "rp.onFailure" pos) pos = failedAt pos r := rfl
+  have hg : getFailed (r.emitSeen "rp.onFailure" pos res.outcome) pos = failedAt pos r := rfl
   by_cases hexc : (m ≠ -1 ∧ ((failedAt pos r + 1 : Nat) : Int) > m) <;> cases hd : durExceeded pos r <;>
     (split <;> simp [apply_ite (excAt pos), hg, hexc, hd])
 
@@ -124,7 +128,7 @@ theorem retry_budget (pos : Nat) (m : Int) (hm : 0 ≤ m) (rl : Bool) (h a : Lis
             · simp only [hd] at hh
               -- the state handed on (last outcome recorded, listener, scripted cancellation point) has the same executor state
               generalize hX : (({ (retryOnFailure pos m rl a res1.withFailure r1).2 with
-                  last := (retryOnFailure pos m rl a res1.withFailure r1).1.outcome }).emit "rp.onRetryScheduled" pos).trigger "rp.onRetryScheduled" = X at hh
+                  last := (retryOnFailure pos m rl a res1.withFailure r1).1.outcome }).emitLast "rp.onRetryScheduled" pos).trigger "rp.onRetryScheduled" = X at hh
               have hbX : Budget pos m X := by
                 rw [← hX]; unfold Budget
                 simp only [failedAt_trigger, failedAt_emit, failedAt_last, excAt_trigger, excAt_emit, excAt_last]; exact hb2
@@ -182,7 +186,7 @@ theorem retry_invocations_bounded (pos : Nat) (m : Int) (hm : 0 ≤ m) (rl : Boo
             · simp only [hd] at hh
               have hnd := (retryOnFailure_not_done pos m rl a res1.withFailure r1 (by simpa using hd)).1
               generalize hX : (({ (retryOnFailure pos m rl a res1.withFailure r1).2 with
-                  last := (retryOnFailure pos m rl a res1.withFailure r1).1.outcome }).emit "rp.onRetryScheduled" pos).trigger "rp.onRetryScheduled" = X at hh
+                  last := (retryOnFailure pos m rl a res1.withFailure r1).1.outcome }).emitLast "rp.onRetryScheduled" pos).trigger "rp.onRetryScheduled" = X at hh
               have hXf : failedAt pos X = failedAt pos r1 + 1 := by
                 rw [← hX]; simp only [failedAt_trigger, failedAt_emit, failedAt_last]; exact hcount
               have hXi : X.inv = r1.inv := by
@@ -196,23 +200,23 @@ theorem retry_invocations_bounded (pos : Nat) (m : Int) (hm : 0 ≤ m) (rl : Boo
                   · omega
                   · have := fun hgt => hnd ⟨hm1, hgt⟩; omega
                 have := ih _ res r' hh (by
-                  show (failedAt pos ((({ X with attempts := X.attempts + 1, retries := X.retries + 1 } : Run)).emit "rp.onRetry" pos) : Int) ≤ m
-                  simp only [failedAt_emit]
+                  show (failedAt pos ((({ X with attempts := X.attempts + 1, retries := X.retries + 1 } : Run)).emitLast "rp.onRetry" pos) : Int) ≤ m
+                  simp only [failedAt_emitLast]
                   have : failedAt pos ({ X with attempts := X.attempts + 1, retries := X.retries + 1 } : Run) = failedAt pos X := rfl
                   rw [this, hXf]; exact hle)
-                have e1 : failedAt pos ((({ X with attempts := X.attempts + 1, retries := X.retries + 1 } : Run)).emit "rp.onRetry" pos) = failedAt pos r1 + 1 := by
-                  simp only [failedAt_emit]
+                have e1 : failedAt pos ((({ X with attempts := X.attempts + 1, retries := X.retries + 1 } : Run)).emitLast "rp.onRetry" pos) = failedAt pos r1 + 1 := by
+                  simp only [failedAt_emitLast]
                   have : failedAt pos ({ X with attempts := X.attempts + 1, retries := X.retries + 1 } : Run) = failedAt pos X := rfl
                   rw [this, hXf]
-                have e2 : ((({ X with attempts := X.attempts + 1, retries := X.retries + 1 } : Run)).emit "rp.onRetry" pos).inv = r1.inv := by
+                have e2 : ((({ X with attempts := X.attempts + 1, retries := X.retries + 1 } : Run)).emitLast "rp.onRetry" pos).inv = r1.inv := by
                   show X.inv = r1.inv; exact hXi
                 rw [e1, e2] at this
                 push_cast at this
                 omega
           · simp only [hfl, Option.some.injEq, Prod.mk.injEq] at hh
             obtain ⟨_, rfl⟩ := hh
-            show ((r1.emit "rp.onSuccess" pos).inv : Int) ≤ _
-            have : (r1.emit "rp.onSuccess" pos).inv = r1.inv := rfl
+            show ((r1.emitSeen "rp.onSuccess" pos res1.outcome).inv : Int) ≤ _
+            have : (r1.emitSeen "rp.onSuccess" pos res1.outcome).inv = r1.inv := rfl
             rw [this]; omega
 
 /-- the wrapped function is invoked at most once per call of the innermost layer, and the call leaves every retry executor's
@@ -249,7 +253,7 @@ theorem budget_fresh (pos : Nat) (m : Int) (hm : 0 ≤ m) (w : World) (sc : List
 theorem retry_stops_on_success (pos : Nat) (m : Int) (rl : Bool) (h a : List Cond) (inner : Layer) (fuel : Nat) (r : Run)
     (res1 : PR) (r1 : Run) (hi : inner r = some (res1, r1)) (hc : r1.isCanc = false)
     (he : r1.exceeded.contains pos = false) (hs : isFailure h res1.outcome = false) :
-    retryLoop pos m rl h a inner (fuel + 1) r = some (res1.withDone true true, r1.emit "rp.onSuccess" pos) := by
+    retryLoop pos m rl h a inner (fuel + 1) r = some (res1.withDone true true, r1.emitSeen "rp.onSuccess" pos res1.outcome) := by
   simp only [retryLoop, hi, hc, he, hs, Bool.false_eq_true, if_false]
 
 /-- **the final result**: after a failure that ends the loop the caller gets `ExceededError{last result, last error}` when the
@@ -262,7 +266,7 @@ theorem retry_final_result (pos : Nat) (m : Int) (rl : Bool) (a : List Cond) (re
       else res1.withDone (isAbortable a res1.outcome || !(!isAbortable a res1.outcome && !exc && decide (m = -1 ∨ m > 0))) false := by
   unfold retryOnFailure
   simp only
-  have hg : getFailed (r.emit "rp.onFailure" pos) pos = failedAt pos r := rfl
+  have hg : getFailed (r.emitSeen "rp.onFailure" pos res1.outcome) pos = failedAt pos r := rfl
   rw [hg]
   split <;> rfl
 
